@@ -317,6 +317,18 @@ def rule_r7_plain(ctx, prog, rule="R7"):
                                                 for b2, t2 in b.calls())
                                     ok = ok or tried
                                     continue
+                            if callee_name(ct) == "ok_or_else" and len(args) == 2:
+                                # ok_or_else(|| UndefinedOrder) – a closure that only builds the error – then `?` (possibly through a
+                                # local holding the Result)
+                                c_ = strip(args[1])
+                                if isinstance(c_, tuple) and c_[:2] == ("agg", "closure") and c_[2] in prog.bodies and not list(prog.bodies[c_[2]].calls()):
+                                    ev = strip(prog.bodies[c_[2]].return_expr())
+                                    if isinstance(ev, tuple) and ev[0] == "agg" and ev[2] == "UndefinedOrder":
+                                        oo = b.call_expr(cbb)
+                                        tried = any(callee_name(t2) == "branch" and strip(b.call_arg_exprs(b2)[0]) == oo for b2, t2 in b.calls())
+                                        if tried:
+                                            ok = True
+                                            continue
                             other_use = callee_name(ct)
                 if not ok and other_use is None:
                     # match form: `match a.partial_cmp(b) { None => return Err(UndefinedOrder), Some(..) => … }` – the None arm of a
